@@ -86,9 +86,9 @@ NONNEG = set()  # names of opaque tensors whose entries are >= 0 by the dependen
 def register_factorisation(names, M):
     """hypothesis: the chain product of the named opaque matrices equals the matrix M (e.g. U diag(S) V = M for an exact SVD)"""
     M = inst(lift(M))
-    if M.ndim != 2 or len(M.axes[0]) != 1 or len(M.axes[1]) != 1:
-        raise EngineError("factorisation hypothesis on a matrix with composite axes")
-    X.FACTORISATIONS.append((tuple(names), (M.axes[0][0], M.axes[1][0], M.body)))
+    if M.ndim != 2:
+        raise EngineError("factorisation hypothesis on a non-matrix")
+    X.FACTORISATIONS.append((tuple(names), (tuple(M.axes[0]), tuple(M.axes[1]), M.body)))
 
 
 LA_LOG = []  # call sites of linear-algebra dependencies in the current execution
@@ -460,7 +460,17 @@ def reshape(t, newshape):
             if pos >= len(flat):
                 raise Misaligned(f"reshape {t.shape} -> {newshape}: ran out of digits")
             if SInt.lift(s).exact_div(acc * VSIZE[flat[pos]]) is None:
-                raise Misaligned(f"reshape {t.shape} -> {newshape}: digit boundary mismatch at {flat[pos]}:{VSIZE[flat[pos]]}")
+                # a digit of monomial size may be split when the target boundary falls inside it (e.g. the r0*r1 columns of a
+                # matrix viewed as (r0, r1)): the digit becomes the mixed-radix combination of two new digits
+                need = SInt.lift(s).exact_div(acc)
+                rest = SInt.lift(VSIZE[flat[pos]]).exact_div(need) if need is not None else None
+                if need is None or rest is None or same(need, 1) or same(rest, 1):
+                    raise Misaligned(f"reshape {t.shape} -> {newshape}: digit boundary mismatch at {flat[pos]}:{VSIZE[flat[pos]]}")
+                need = need.const() if need.is_const() else need
+                rest = rest.const() if rest.is_const() else rest
+                v1, v2 = fresh(need, "m"), fresh(rest, "m")
+                t = GTensor(t.axes, t.body.subst({flat[pos]: ("MIX", ((v1, sint_key(need)), (v2, sint_key(rest))))}), t.dtype)
+                flat = flat[:pos] + [v1, v2] + flat[pos + 1:]
             grp.append(flat[pos])
             acc = acc * VSIZE[flat[pos]]
             pos += 1
@@ -1261,6 +1271,11 @@ def eval_term(t, free, env, inputs):
             return idx_val(i[1]) // builtins.int(X.size_from_key(i[2]).subs(env))
         if isinstance(i, tuple) and i and i[0] == "MOD":
             return idx_val(i[1]) % builtins.int(X.size_from_key(i[2]).subs(env))
+        if isinstance(i, tuple) and i and i[0] == "MIX":
+            tot = 0
+            for term, k in i[1]:
+                tot = tot * builtins.int(X.size_from_key(k).subs(env)) + idx_val(term)
+            return tot
         return i
 
     val = np.ones([1] * nd, dtype=float) * float(t.coef) if nd else np.array(float(t.coef))
